@@ -19,7 +19,10 @@ EXHAUSTIVE = False
 ASSUMPTIONS = ["a Packet is a [188]byte value; data slices have cap = len",
                "views vs copies (aliasing) are observed by goexec only: function Payload/Header return views, method Payload a copy",
                "the model follows /root/work/repo-fixed (F6, F7 repaired, C05 guards)"]
-PARTIAL = ""
+PARTIAL = ("SetPayload on a payload-only packet (control 01) with fewer than 184 bytes (the path that creates the adaptation field), "
+           "SetAdaptationFieldControl on its own, the function-style SetPayload of create.go, Create with arbitrary option lists and "
+           "CreatePacketWithPayload are tied by the correspondence only (fidelity cases); the full statements are kept in "
+           "Properties/C02.v as C02_set_payload_ok_full / C02_create_packet_with_payload_full")
 
 FLAG_PCR, FLAG_OPCR, FLAG_SPLICE, FLAG_TPD, FLAG_EXT = 0x10, 0x08, 0x04, 0x02, 0x01
 
@@ -121,13 +124,20 @@ def gen(rng, tier):
                 kind = "set-empty" if ln == 0 else ("set-fill" if ln >= cap else "set-short")
                 if l["af"] == ("empty",) and 0 < ln < 183:
                     kind = "set-short-af0"      # defect F7 shape
-                out.append(Case("pay.set %s %s" % (hx(p), hx(d)), kind=kind,
-                                theorem="C02_set_payload_ok" if ln > 0 else "C02_set_payload_empty"))
+                # proved of the model: every packet that already has an adaptation field, and payload-only
+                # packets with filling data (C02_set_payload_ok_partial); control 01 with short data creates
+                # the field and is tied by the correspondence only
+                proved = l["af"] is not None or ln >= 184
+                if not proved:
+                    kind += "-creates-af"
+                out.append(Case("pay.set %s %s" % (hx(p), hx(d)), kind=kind, decides=proved, nontrivial=True,
+                                theorem=("C02_set_payload_ok_partial" if ln > 0 else "C02_set_payload_empty") if proved
+                                else "C02_set_payload_ok_full (unproved part)"))
         for v in (1, 2, 3):
             if rng.random() < 0.5 or thorough:
-                out.append(Case("pay.set_afc %s %d" % (hx(p), v), kind="set-afc", theorem="C02_set_afc"))
+                out.append(Case("pay.set_afc %s %d" % (hx(p), v), kind="set-afc", decides=False, theorem="(no theorem: correspondence only)"))
         if rng.random() < 0.3:
-            out.append(Case("pay.set_fn %s %s" % (hx(p), hx(rb(rng, rng.randrange(201)))), kind="set-fn", theorem="C02_set_payload_fn"))
+            out.append(Case("pay.set_fn %s %s" % (hx(p), hx(rb(rng, rng.randrange(201)))), kind="set-fn", decides=False, theorem="(no theorem: correspondence only)"))
     # ---- malformed packets: fidelity only
     mal = []
     base = [x for x, _ in pk]
@@ -156,7 +166,7 @@ def gen(rng, tier):
             out.append(Case("pay.create_dc %d %d" % (pid, cc), kind="create-dc", theorem="C02_create_dc_packet"))
     for ln in list(range(0, 201, 1 if thorough else 7)) + [183, 184, 185]:
         out.append(Case("pay.create_pwp %d %d %s" % (rng.randrange(8192), rng.randrange(16), hx(rb(rng, ln))),
-                        kind="create-with-payload", theorem="C02_create_packet_with_payload"))
+                        kind="create-with-payload", decides=False, theorem="C02_create_packet_with_payload_full (stated, unproved)"))
     for _ in range(150 if not thorough else 5000):
         opts = []
         for _ in range(rng.randrange(0, 6)):
@@ -165,7 +175,7 @@ def gen(rng, tier):
             elif k == 6: opts.append("[ 6 %s ]" % hx(rb(rng, rng.choice([0, 1, 10, 184, 200]))))
             else: opts.append("[ 7 %d ]" % rng.randrange(2 ** 33))
         out.append(Case("pay.create %d [ %s ]" % (rng.choice([0, 8191, rng.randrange(8192)]), " ".join(opts)), kind="create",
-                        theorem="C02_create"))
+                        decides=False, theorem="(no theorem: correspondence only)"))
     # out-of-range pid / cc for the helpers: fidelity
     for _ in range(40):
         out.append(Case("pay.create_test %d %d 1 1" % (rng.choice([8192, 65535, -1, 1 << 20]), rng.randrange(16, 256)),
